@@ -149,6 +149,16 @@ impl StrategyPlanner {
                 Ok(_) if std::fs::symlink_metadata(&dest_path).is_ok_and(|m| m.is_dir()) => {
                     (SyncAction::Update, None, None)
                 }
+                // A symbolic link in the file's place (the source entry used to be a link): what it
+                // points to says nothing about this entry. The update replaces the link; comparing
+                // through it ended in a skip whenever the referent had the file's size and time
+                // stamp, and the destination kept a link where the source has a regular file.
+                Ok(_)
+                    if std::fs::symlink_metadata(&dest_path)
+                        .is_ok_and(|m| m.file_type().is_symlink()) =>
+                {
+                    (SyncAction::Update, None, None)
+                }
                 Ok(dest_info) => {
                     // Compute checksums if verifier is present and files are local
                     let (source_cksum, dest_cksum) = if let Some(ref verifier) = self.verifier {
